@@ -38,7 +38,7 @@ def run(rep, tier, seed):
     rng = random.Random("C07-%d" % seed)
     bad = []
     # ---- cost: marginal work must stay proportional
-    har = common.build_harness("plain", "cost")
+    har = common.build_harness("cov", "cost")      # hooks H1/H2 and the basic-block count in one run
     fams = dict(FAMILIES)
     for _ in range(14 if tier == "quick" else 120):
         s = " ".join(rng.choice(ATOMS) for _ in range(rng.randint(2, 6))) + " "
@@ -52,16 +52,24 @@ def run(rep, tier, seed):
                 fams["swallow:%s%s" % (o1, o2)] = (lambda s: (lambda n: s * n))("%sa %sb c%s %sd e%s " % (o1, o2, c1, o1, c2))
     sizes = (2000, 4000, 8000) if tier == "quick" else (4000, 8000, 16000, 32000)
     meas = {}
-    for name, f in fams.items():
-        for fmt in (["html"] if tier == "quick" else ["html", "latex"]):
-            outs = common.run_lines(har, ["%d %d %s" % (tchk.FMT[fmt], E["notes"] | E["smart"], f(n).encode().hex()) for n in sizes], timeout=900)
+    from concurrent.futures import ThreadPoolExecutor
+    jobs = [(name, f, fmt) for name, f in fams.items() for fmt in (["html"] if tier == "quick" else ["html", "latex"])]
+    with ThreadPoolExecutor(common.NCPU) as ex:      # (cost is counted in steps, not seconds: running the measurements side by side does not change it)
+        measured = list(ex.map(lambda j: common.run_lines(har, ["%d %d %s" % (tchk.FMT[j[2]], E["notes"] | E["smart"], j[1](n).encode().hex()) for n in sizes], timeout=900), jobs))
+    for (name, f, fmt), outs in zip(jobs, measured):
+        if True:
             if any(o.startswith("CRASH") for o in outs):
                 bad.append(("impl-crash", "cost harness failed on family %s: %s" % (name, [o[:100] for o in outs]), dict(family=name))); continue
-            steps = [int(o.split()[0]) for o in outs]; toks = [int(o.split()[1]) for o in outs]
+            steps = [int(o.split()[0]) for o in outs]; toks = [int(o.split()[1]) for o in outs]; bbs = [int(o.split()[3]) for o in outs]
             meas[(name, fmt)] = steps
             for i in range(len(sizes) - 2):
                 d1, d2 = steps[i + 1] - steps[i], steps[i + 2] - steps[i + 1]
                 t1, t2 = toks[i + 1] - toks[i], toks[i + 2] - toks[i + 1]
+                b1, b2 = bbs[i + 1] - bbs[i], bbs[i + 2] - bbs[i + 1]
+                if b1 > 100000 and b2 > 2.8 * b1:
+                    bad.append(("superlinear-basic-blocks:" + ("published" if name in FAMILIES else "repeat"),
+                                "executed basic blocks on family %r grow faster than its length: %s for sizes %s" % (name, bbs, list(sizes)),
+                                dict(family=name, example=f(8)[:200], sizes=list(sizes), basic_blocks=bbs))); break
                 if d1 > 2000 and d2 > 2.8 * d1:
                     bad.append(("superlinear-matcher:" + ("published" if name in FAMILIES else "repeat"),
                                 "pair matcher work on family %r grows faster than its length: steps %s for sizes %s" % (name, steps, list(sizes)),
@@ -78,6 +86,32 @@ def run(rep, tier, seed):
         base = max(steps[0], 50)
         if steps[-1] > 1.5 * ks[-1] * base + 2000 or toks[-1] > 1.5 * ks[-1] * max(toks[0], 10) + 100:
             bad.append(("superlinear-copies", "work for k copies of a document is not proportional to k: steps %s tokens %s for k=%s" % (steps, toks, list(ks)), dict(doc=d[:300])))
+    # k copies, cost = executed basic blocks of the library (build variant "cov": gcc -fsanitize-coverage=trace-pc, one callback per basic block):
+    # the cost per copy must not grow with k
+    harcov = common.build_harness("cov", "cost")
+    ATOM_BLOCKS = ["* item\n", "1. one\n", "para text *emph* and `code`\n\n", "> quote\n>\n", "> * a\n", "* a\n    * b\n", "[a][b]\n\n[b]: http://x.y\n\n",
+                   "note[^a]\n\n[^a]: text\n\n", "# Head\n\ntext\n\n", "term\n: def\n\n", "| a | b |\n|---|---|\n| 1 | 2 |\n\n", "    code\n\n",
+                   "* a\n\n    para\n\n", "[^n]: note\n    more\n\n", "> quote\n\n", "- [link](u \"t\") ![i](p)\n", "Head\n====\n\n", "```\ncode\n```\n\n", "<div>\nhtml\n</div>\n\n"]
+    cjobs = [(d, (64, 4096), fmt) for d in ATOM_BLOCKS for fmt in (["html"] if tier == "quick" else ["html", "latex", "fodt"])]
+    cjobs += [(gen_md.structured(rng, 4, meta=False) + "\n\n", (16, 256), rng.choice(["html", "latex", "fodt"])) for _ in range(6 if tier == "quick" else 60)]
+    def copies_run(j):
+        d, ks, fmt = j
+        return common.run_lines(harcov, ["%d %d %s" % (tchk.FMT[fmt], E["notes"] | E["smart"], (d * k).encode("utf-8", "replace").hex()) for k in ks], timeout=900)
+    with ThreadPoolExecutor(common.NCPU) as ex:
+        cres = list(ex.map(copies_run, cjobs))
+    ncopies = 0
+    percopy = {}
+    for (d, ks, fmt), outs in zip(cjobs, cres):
+        if any(o.startswith("CRASH") for o in outs): continue
+        ncopies += 1
+        bb = [int(o.split()[3]) for o in outs]
+        pc = [b / k for b, k in zip(bb, ks)]
+        percopy["%s/%s" % (d[:20].replace("\n", "\\n"), fmt)] = [round(x) for x in pc]
+        if pc[1] > 1.5 * pc[0] + 50:
+            bad.append(("superlinear-copies", "executed basic blocks per copy grow with the number of copies: %s per copy for k=%s of %r (%s)" % ([round(x) for x in pc], list(ks), d[:60], fmt),
+                        dict(doc=d[:300], ks=list(ks), basic_blocks=bb, fmt=fmt)))
+    rep.cov["copies_measured_in_basic_blocks"] = ncopies
+    rep.cov["basic_blocks_per_copy"] = dict(list(percopy.items())[:25])
     # ---- stack: deep nesting under an 8 MiB stack
     cli = os.path.join(common.build_variant("plain"), "multimarkdown")
     rundir = os.path.join(common.BUILD, "run", "C07.%d" % os.getpid()); os.makedirs(rundir, exist_ok=True)
@@ -85,28 +119,38 @@ def run(rep, tier, seed):
     inconclusive = []
     try:
         depths = [2000, 30000, 500000] if tier == "quick" else [2000, 30000, 100000, 250000, 500000]
+        njobs = []
         for cname, (o, c) in NEST.items():
             for n in depths:
                 if cname == "emph" and n > 30000:
                     continue      # a run of n '*' costs O(n^2) in mmd_assign_ambidextrous_tokens_in_block (observation in DESIGN.md; not one of the stated cost clauses)
-                src = (o * n + "a" + c * n + "\n").encode()
-                p = os.path.join(rundir, "n.md"); open(p, "wb").write(src)
                 for fmt in (["html", "latex", "fodt", "opml"] if tier != "quick" else [rng.choice(["html", "latex", "fodt", "opml"])]):
                     if cname == "footnote" and fmt == "html" and n > 30000:
                         continue  # n nested inline footnotes cost O(n^2) in the HTML writer (the label text of each is cleaned separately: observation in DESIGN.md; not a stated cost clause)
-                    nruns += 1
-                    try:
-                        r = subprocess.run([cli, "-t", fmt, p], stdout=subprocess.DEVNULL, stderr=subprocess.PIPE, preexec_fn=limit_stack, timeout=300)
-                        rc = r.returncode
-                    except subprocess.TimeoutExpired:
-                        rc = "timeout"
-                    if rc == "timeout":
-                        # the stack clause says 'never crashes'; a run that is still going after 300 s shows no crash and is recorded as not judged
-                        inconclusive.append("%s depth %d -> %s: no result in 300 s" % (cname, n, fmt))
-                    elif rc != 0:
-                        kind = "deep-nesting-stack-overflow" if n >= 100000 else "stack-overflow-at-moderate-depth:%s" % cname
-                        bad.append((kind, "%d nested %s openers (%d bytes): conversion to %s died with status %s under an 8 MiB stack" % (n, cname, len(src), fmt, rc),
-                                    dict(construct=cname, depth=n, fmt=fmt, opener=o, closer=c)))
+                    njobs.append((cname, o, c, n, fmt))
+
+        def nest_run(j):
+            cname, o, c, n, fmt = j
+            src = (o * n + "a" + c * n + "\n").encode()
+            p = os.path.join(rundir, "n%d.md" % njobs.index(j)); open(p, "wb").write(src)
+            try:
+                r = subprocess.run([cli, "-t", fmt, p], stdout=subprocess.DEVNULL, stderr=subprocess.PIPE, preexec_fn=limit_stack, timeout=300)
+                return r.returncode, len(src)
+            except subprocess.TimeoutExpired:
+                return "timeout", len(src)
+            finally:
+                os.unlink(p)
+        with ThreadPoolExecutor(8) as ex:
+            nres = list(ex.map(nest_run, njobs))
+        for (cname, o, c, n, fmt), (rc, srclen) in zip(njobs, nres):
+            nruns += 1
+            if rc == "timeout":
+                # the stack clause says 'never crashes'; a run that is still going after 300 s shows no crash and is recorded as not judged
+                inconclusive.append("%s depth %d -> %s: no result in 300 s" % (cname, n, fmt))
+            elif rc != 0:
+                kind = "deep-nesting-stack-overflow" if n >= 100000 else "stack-overflow-at-moderate-depth:%s" % cname
+                bad.append((kind, "%d nested %s openers (%d bytes): conversion to %s died with status %s under an 8 MiB stack" % (n, cname, srclen, fmt, rc),
+                            dict(construct=cname, depth=n, fmt=fmt, opener=o, closer=c)))
     finally:
         import shutil; shutil.rmtree(rundir, ignore_errors=True)
     rep.cov["evaluations"] = len(meas) * len(sizes) + nruns
